@@ -52,6 +52,7 @@ def plan(tier, seed):
             for tol in ("default", 1e-2):
                 cases.append(dict(key=f"protocol/maxiter={maxiter}/items={items}/tol={tol}", kind="protocol", maxiter=maxiter, items=items, tol=tol, seed=seed, cost=maxiter**3))
     cases.append(dict(key="partitioned-solve", kind="solve", seed=seed, cost=3))
+    cases.append(dict(key="callables", kind="callables", seed=seed, cost=2))
     quick = tier == "quick"
     for (mk, fk) in FAMILIES:
         mats = E2_MATERIALS if (not quick or (mk, fk) in (("hexahedron", "3d"), ("quad", "ps"))) else ["LinearElastic", "NeoHooke", "NearlyIncompressibleBody"]
@@ -345,5 +346,59 @@ def run_problem(case):
     return c.result(dict(case=case["key"], sequences=len(sequences), unknowns=int(sum(field.fieldsizes))))
 
 
+def run_callables(case):
+    """newtonrhapson driven with user functions on plain arrays (no items, no dof0 / dof1): a lattice of small algebraic
+    systems x start points x tolerances.  Whenever success is reported the documented criterion must hold for an
+    independently re-evaluated residual: norm(f) / (eps + 0) < tol with eps = 1e-3 (no prescribed unknowns), res.fun is the
+    residual at res.x, the norm lists have one entry per iteration; otherwise it must raise."""
+    import felupe as fem
+
+    c = Ctx(case["key"])
+    eps = 1e-3
+    problems = {
+        "double-root": (lambda x: (x - 3.0) ** 2, lambda x: np.diag(2.0 * (x - 3.0)), [np.array([0.0]), np.array([1.0]), np.array([5.0]), np.array([10.0])]),
+        "cubic": (lambda x: x**3 - 2.0 * x - 5.0, lambda x: np.diag(3.0 * x**2 - 2.0), [np.array([2.0]), np.array([3.0]), np.array([-4.0])]),
+        "system2": (lambda x: np.array([x[0] ** 2 + x[1] - 2.0, x[0] - x[1] ** 3]), lambda x: np.array([[2.0 * x[0], 1.0], [1.0, -3.0 * x[1] ** 2]]),
+                    [np.array([1.0, -1.5]), np.array([2.0, 2.0]), np.array([0.5, 0.3]), np.array([-3.0, 1.0])]),
+        "linear3": (lambda x: np.array([[4.0, 1.0, 0.0], [1.0, 3.0, 1.0], [0.0, 1.0, 2.0]]) @ x - np.array([1.0, 2.0, 3.0]), lambda x: np.array([[4.0, 1.0, 0.0], [1.0, 3.0, 1.0], [0.0, 1.0, 2.0]]),
+                    [np.zeros(3), np.array([5.0, -2.0, 1.0])]),
+    }
+    for pname, (fun, jac, starts) in problems.items():
+        for k, x0 in enumerate(starts):
+            for tol in (np.sqrt(np.finfo(float).eps), 1e-4, 1e-10):
+                for maxiter in (8, 60):
+                    sub = f"{pname}/start{k}/tol={tol:.1e}/maxiter={maxiter}"
+                    try:
+                        res = fem.newtonrhapson(x0=x0.copy(), fun=fun, jac=jac, solve=np.linalg.solve, maxiter=maxiter, tol=tol, verbose=False)
+                        ok = True
+                    except ValueError:
+                        ok = False
+                    except Exception as ex:  # noqa
+                        c.bad(sub + "/exception", "unexpected exception type", repr(ex)[:120], "ValueError or a result")
+                        continue
+                    c.trans += 1
+                    c.traces += 1
+                    c.states += 1
+                    if not ok:
+                        c.outcomes.add("raised")
+                        continue
+                    c.outcomes.add("success")
+                    c.nontrivial.append(sub)
+                    xr = np.asarray(res.x, float)
+                    fr = np.asarray(fun(xr), float)
+                    crit = float(np.linalg.norm(fr)) / eps
+                    if not res.success:
+                        c.bad(sub + "/returned-without-success", "a result is returned although success is False", False, True)
+                    if not crit < tol:
+                        c.bad(sub + "/criterion", "success reported, but the independently re-evaluated residual violates norm(f) / (eps + norm(f0)) < tol (no prescribed unknowns: f0 empty, eps = 1e-3)", crit, f"< {tol:.3e}", tol)
+                    if not np.array_equal(np.asarray(res.fun, float), fr):
+                        c.bad(sub + "/fun", "res.fun is not the residual at res.x", np.asarray(res.fun, float).tolist(), fr.tolist())
+                    if not (len(res.fnorms) == len(res.xnorms) == res.iterations <= maxiter):
+                        c.bad(sub + "/bookkeeping", "iterations / norm lists", [res.iterations, len(res.fnorms), len(res.xnorms)], f"equal, <= {maxiter}")
+                    if pname == "linear3" and res.iterations != 1:
+                        c.bad(sub + "/linear", "a linear problem converges with the first update", res.iterations, 1)
+    return c.result(dict(case=case["key"], problems=list(problems)))
+
+
 def run(case):
-    return {"protocol": run_protocol, "solve": run_solve, "problem": run_problem}[case["kind"]](case)
+    return {"protocol": run_protocol, "solve": run_solve, "problem": run_problem, "callables": run_callables}[case["kind"]](case)
